@@ -59,6 +59,8 @@ def params_shards(tier, seed):
     for kindset in ('struct', 'enum'):
         for shape in (('named', 'tuple') if kindset == 'struct' else ('enum',)):
             for tail in TAILS:
+                if tier == 'quick' and shape == 'tuple' and TAILS.index(tail) != seed % 4:
+                    continue
                 out.append({'family': 'params', 'item': kindset, 'shape': shape, 'tail': tail})
     return out
 
@@ -93,6 +95,8 @@ def ghosts_shards(tier, seed):
     for shape in ('named', 'tuple'):
         for kind in KINDS:
             for fallible in ((False, True) if tier == 'thorough' else (bool((KINDS.index(kind) + seed) % 2),)):
+                if tier == 'quick' and (KINDS.index(kind) + (shape == 'tuple') + seed) % 2:
+                    continue
                 out.append({'family': 'ghosts', 'shape': shape, 'kind': kind, 'fallible': fallible})
     return out
 
@@ -103,14 +107,14 @@ def make_ghosts(sh):
     err = 'Er' if fallible else None
 
     def make():
-        t1 = TraitInstr(tn, 'X', hint=Ch('th', ['Unspecified', 'Struct', 'Tuple']), err=err, update=Ch('tu', [None, '__upd(@)']), tag='t1')
+        t1 = TraitInstr(tn, 'X', hint=Ch('th', ['Unspecified', 'Tuple'] if shape == 'named' else ['Unspecified', 'Struct']), err=err, update=Ch('tu', [None, '__upd(@)']), tag='t1')
         t2 = TraitInstr(tn, 'Y', err=err, tag='t2')
         nm = (lambda s: s) if shape == 'named' else (lambda s: None)
         g = ('n', 'gx') if shape == 'named' else ('i', 2)
         g2 = ('n', 'gy') if shape == 'named' else ('i', 3)
         gi = GhostsInstr(Ch('gsn', ['ghosts', 'ghosts_owned', 'ghosts_ref']), ded=Ch('gsd', [None, 'X', 'Y']), data=[GhostData(g, '__gx(@)', tag='gx'), GhostData(g2, '__gy(@.a)', tag='gy')])
-        gj = GhostsInstr(Ch('gsn2', ['ghosts', 'ghosts_owned', 'ghosts_ref']), ded=Ch('gsd2', ['X', 'Y']), data=[GhostData(g, '__hx(@)', tag='hx')])
-        m0 = Member(nm('a'), instrs=[GhostInstr(Ch('g0n', ['ghost', 'ghost_owned', 'ghost_ref']), ded=Ch('g0d', [None, 'Y']), action=Ch('g0a', [None, '__g0(@)']), tag='g0')])
+        gj = GhostsInstr(Ch('gsn2', ['ghosts_owned', 'ghosts_ref']), ded=Ch('gsd2', ['X', 'Y']), data=[GhostData(g, '__hx(@)', tag='hx')])
+        m0 = Member(nm('a'), instrs=[GhostInstr(Ch('g0n', ['ghost', 'ghost_ref']), action=Ch('g0a', [None, '__g0(@)']), tag='g0')])
         m1 = Member(nm('b'))
         return Spec('struct', shape=shape, traits=[t1, t2], members=[m0, m1], type_instrs=[gi, gj])
     return make
@@ -123,40 +127,51 @@ CHILD_MENU = [None, [('n', 'c1')], [('n', 'c1'), ('n', 'c2')], [('n', 'd1')], [(
 
 def child_shards(tier, seed):
     out = []
-    layouts = [(1, 2, 0), (2, 1, 2), (1, 3, 1), (2, 4, 2), (0, 2, 1), (3, 1, 2), (2, 2, 2), (4, 2, 1)]
-    if tier == 'quick':
-        layouts = [layouts[(seed + i) % len(layouts)] for i in range(3)]
     for shape in ('named', 'tuple'):
         for kind in KINDS:
-            for li, lay in enumerate(layouts):
-                if tier == 'quick' and (li + KINDS.index(kind) + (shape == 'tuple')) % 3 != 0:
+            for fallible in (False, True):
+                if tier == 'quick' and ((KINDS.index(kind) + (shape == 'tuple') + seed) % 2 or fallible != bool(KINDS.index(kind) % 2)):
                     continue
-                out.append({'family': 'child', 'shape': shape, 'kind': kind, 'fallible': (li % 2 == 1), 'layout': lay})
+                out.append({'family': 'child', 'shape': shape, 'kind': kind, 'fallible': fallible, 'menu': [0, 1, 2, 3] if tier == 'quick' else [0, 1, 2, 3, 4]})
     return out
 
 
 def make_child(sh):
-    shape, kind, fallible, lay = sh['shape'], sh['kind'], sh['fallible'], sh['layout']
+    shape, kind, fallible, menu = sh['shape'], sh['kind'], sh['fallible'], sh['menu']
     tn = BASIC_NAME[(kind, fallible)]
     err = 'Er' if fallible else None
 
     def make():
-        cps_hint = Ch('cph', ['Unspecified', 'Struct', 'Tuple'])
         t1 = TraitInstr(tn, 'X', err=err, tag='t1')
         nm = (lambda s: s) if shape == 'named' else (lambda s: None)
         members = []
-        for i, c in enumerate(lay):
-            ins = []
-            if CHILD_MENU[c] is not None:
-                ins.append(ChildInstr(CHILD_MENU[c]))
+        for i in range(3):
+            members.append(('L%d' % i, Ch('lay%d' % i, menu, fork=True)))
+        spec_members = []
+
+        class LazyChild(ChildInstr):
+            pass
+        out = []
+        for i, (nmv, ch) in enumerate(members):
+            ins = [OptChild(ch)]
             if i == 0:
                 ins.append(MapInstr('map', member=Ch('m0m', [None, ('n', 'zz'), ('i', 0)]), action=Ch('m0a', [None, '__e0(~, @)']), tag='e0'))
-            members.append(Member(nm('f%d' % i), instrs=ins))
+            out.append(Member(nm('f%d' % i), instrs=ins))
         entries = [([('n', 'c1')], 'C1', 'Unspecified'), ([('n', 'c1'), ('n', 'c2')], 'C2', 'Unspecified'), ([('n', 'd1')], 'D1', 'Unspecified'), ([('n', 'c1'), ('n', 'c3')], 'C3', 'Unspecified')]
         cp = ChildParents(entries)
         gd = GhostsInstr('ghosts', data=[GhostData(('n', 'gz'), '__gz(@)', path=[('n', 'c1')], tag='gz')])
-        return Spec('struct', shape=shape, traits=[t1], members=members, type_instrs=[cp] + ([gd] if shape == 'named' else []))
+        return Spec('struct', shape=shape, traits=[t1], members=out, type_instrs=[cp] + ([gd] if shape == 'named' else []))
     return make
+
+
+class OptChild:
+    """#[child(path)] whose path is a forked choice over CHILD_MENU indices (0 = no child instruction)"""
+
+    def __init__(self, ch):
+        self.ch = ch
+
+    def inner(self, c):
+        return None if CHILD_MENU[c] is None else ChildInstr(CHILD_MENU[c])
 
 
 # ------------------------------------------------------------------------------------------ parent
